@@ -559,8 +559,15 @@ fn write_regular_header(
             return Err(RejectReason::DuplicateCl);
         }
         if let Some(length) = from_utf8(value).ok().and_then(|v| v.parse::<usize>().ok()) {
+            let repeated = matches!(kawa.body_size, BodySize::Length(_));
             if !set_content_length(&mut kawa.body_size, length) {
                 return Err(RejectReason::ClTeConflict);
+            }
+            if repeated {
+                // RFC 9110 §8.6: a repeated, identical Content-Length is replaced
+                // by a single field before the message is forwarded - an H1
+                // backend must never be handed two Content-Length lines.
+                return Ok(());
             }
         } else {
             return Err(RejectReason::DuplicateCl);
